@@ -171,6 +171,8 @@ class Schemas:
         if ":" in s:
             p, l = s.split(":", 1)
             ns = ctx["nsmap"].get(p)
+            if ns is None and p == "xml":
+                ns = "http://www.w3.org/XML/1998/namespace"
             if ns is None:
                 raise AnalysisError("undeclared prefix %s in %s" % (p, ctx["path"]))
             return (ns, l)
